@@ -2,7 +2,7 @@
 (* Root module of trace validation: binds the generated program batch and the recording. *)
 EXTENDS MCProgsMod, Json, IOUtils
 CONSTANTS Strong, ScMode, NotifySpur, CvAny
-VARIABLES pid, pc, regs, st, sub, tv, scv, mo, mview, glued, relx, cells, ash, ob, end, out, l, phase
+VARIABLES pid, pc, regs, st, sub, tv, scv, mo, mview, glued, relx, cells, ash, ob, end, out, l, phase, lastT, pre, pb
 TraceRec == ndJsonDeserialize(IOEnv.TRACE)
 T == INSTANCE LoomSemTrace WITH Progs <- MCProgs, Rec <- TraceRec
 Spec == T!TSpec
